@@ -226,7 +226,59 @@ fn lzip_prefix_members(orig: &[u8], mutant: &[u8], out_len: usize) -> bool {
     false
 }
 
+/// LZIP files whose members hold 64 KiB of data and more (large members may take other code paths in the readers
+/// than small ones): flips in the last bytes of each member's payload and in every trailer field, and trailer sizes
+/// rewritten to smaller / larger values, through LZIPReader and LZIPReaderMT
+fn run_c04_big_members(rep: &mut Report, rng: &mut Rng, thorough: bool) {
+    for round in 0..(if thorough { 4 } else { 1 }) {
+        let mut r = rng.fork();
+        let mut bytes = vec![];
+        let mut data = vec![];
+        let mut ends = vec![];
+        let sizes = [70_000usize + 1000 * round, 210_000, 3000];
+        for (k, l) in sizes.iter().enumerate() {
+            let d = gen_data(&mut r, ["text", "mixed", "text"][k], *l);
+            let lz = LzOpts { dict: 65536, lc: 3, lp: 0, pb: 2, normal: false, nice: 32, bt4: false, depth: 0, preset: None };
+            if let Outcome::Ok(c) = lzip_compress(&d, &lz, None, &[d.len()]) {
+                bytes.extend(c);
+                data.extend(d);
+                ends.push(bytes.len());
+            }
+        }
+        let f = ValidFile { name: format!("lzip-big-members-{round}"), fmt: "lzip", bytes, data, check: 1 };
+        rep.count("file.lzip-big");
+        match real_decode("lzip", false, &f.bytes, f.data.len() + 64) {
+            Outcome::Ok((out, _)) if out == f.data => {}
+            other => rep.fail("valid-file-rejected", &format!("valid file not decoded: {}", other.describe()), json!({"file": f.name})),
+        }
+        for (mi, &end) in ends.iter().enumerate() {
+            // single-bit flips in the last 24 payload bytes and the whole trailer (a sample of bits in quick)
+            for off in 1..=44usize {
+                for bit in 0..8u8 {
+                    if !thorough && (off * 8 + bit as usize) % 5 != round % 5 {
+                        continue;
+                    }
+                    let mut m = f.bytes.clone();
+                    m[end - off] ^= 1 << bit;
+                    check_mutant(rep, &f, &m, &format!("bigmember{mi}-flip@end-{off}.{bit}"), false);
+                    rep.evaluations += 1;
+                }
+            }
+            // data_size (trailer bytes 4..12) and member_size (12..20) rewritten
+            let ds = u64::from_le_bytes(f.bytes[end - 16..end - 8].try_into().unwrap());
+            for nv in [ds / 2, 65536, 65537, ds - 1, ds + 1, ds.saturating_sub(4096), 0] {
+                let mut m = f.bytes.clone();
+                m[end - 16..end - 8].copy_from_slice(&nv.to_le_bytes());
+                check_mutant(rep, &f, &m, &format!("bigmember{mi}-datasize={nv}"), false);
+                rep.evaluations += 1;
+            }
+        }
+        rep.case(format!("lzip-big-members:{round}"), true, || json!({"file": f.name, "len": f.bytes.len()}));
+    }
+}
+
 pub fn run_c04(rep: &mut Report, rng: &mut Rng, thorough: bool) {
+    run_c04_big_members(rep, &mut rng.fork(), thorough);
     let files = valid_files(rng, if thorough { 8 } else { 2 }, if thorough { 1200 } else { 120 });
     for f in &files {
         rep.count(&format!("file.{}", f.fmt));
